@@ -79,9 +79,7 @@ Example facts_nonvacuous :
   mem "P" (wr_names (foot (fmethods F_EKF) FUEL (Call "update"))) = true /\
   mem "m_ref" (rd_names (foot (fmethods F_EKF) FUEL (Call "update"))) = true /\
   mem "mag" (fdata F_EKF) = true /\ mem "acc" (fdata F_Mahony) = true /\ mem "Dt" (fdata F_EKF) = false /\
-  mem "k_P" (fcfg F_Mahony) = true /\
-  mem "np.random" (gl_names (foot (fmethods F_OLEQ) FUEL (Call "estimate"))) = true /\
-  mem "np.random" (gl_names (foot (fmethods F_ROLEQ) FUEL (Call "_compute_all"))) = true.
+  mem "k_P" (fcfg F_Mahony) = true.
 Proof. vm_compute. repeat split. Qed.
 
 (* outside the update calls, _compute_all rebinds nothing but the constructor-data attributes (its private copies of gyr/acc/mag):
@@ -113,6 +111,15 @@ Definition pairs_ok (f : filt) (u : string) : bool :=
   forallb (fun p => negb (derived_from f (fst p) (snd p)) || negb (mem (snd p) R)) config_pairs.
 Lemma pairs_all : forallb (fun fu => pairs_ok (fst fu) (snd fu))
   ((F_Madgwick, "updateIMU") :: (F_Madgwick, "updateMARG") :: framed_entry_points) = true.
+Proof. vm_compute. reflexivity. Qed.
+
+(* the whole of __init__ (configuration part AND the _compute_all run, to any depth) draws from the NumPy global generator only where
+   the class is a recorded user of it: under a test of `self.q0` (ROLEQ's first row when no q0 is given).  A draw on any other path is
+   the atom "np.random:unguarded" (OLEQ, whose estimator draws by nature, is extracted without a licensing attribute). *)
+Definition rng_guarded (f : filt) : bool :=
+  negb (mem "np.random:unguarded" (gl_names (foot (fmethods f) FUEL (Call "__init__")))) &&
+  forallb (fun u => negb (mem "np.random:unguarded" (gl_names (foot (fmethods f) FUEL (Call u))))) (fupdates f).
+Lemma rng_guarded_all : forallb rng_guarded all_filters = true.
 Proof. vm_compute. reflexivity. Qed.
 
 (* a concrete machine: the batch loop really runs and returns the streamed rows *)
